@@ -75,7 +75,9 @@ TWINS = [
 
 
 def header_stores(fnode):
-    """{key: [stmt]} for header['KEY'] = / op= ..."""
+    """{key: [stmt]} for header['KEY'] = / op= ... ; a store through a key
+    variable chosen among literal candidates (key = pick(header, 'A', 'B'))
+    is recorded under every candidate"""
     out = {}
     for s in walk_no_nested(fnode):
         tg = None
@@ -83,10 +85,26 @@ def header_stores(fnode):
             tg = s.targets[0]
         elif isinstance(s, ast.AugAssign):
             tg = s.target
-        if isinstance(tg, ast.Subscript) and \
-                isinstance(tg.slice, ast.Constant) and \
+        if not isinstance(tg, ast.Subscript):
+            continue
+        if isinstance(tg.slice, ast.Constant) and \
                 isinstance(tg.slice.value, str):
             out.setdefault(tg.slice.value, []).append(s)
+        elif isinstance(tg.slice, ast.Name):
+            # the reaching definition of the key variable: the closest
+            # preceding assignment
+            defs = [d for d in walk_no_nested(fnode)
+                    if isinstance(d, ast.Assign) and
+                    norm(d.targets[0]) == tg.slice.id and
+                    d.lineno < s.lineno]
+            if not defs:
+                continue
+            d = max(defs, key=lambda x: x.lineno)
+            cands = [a.value for a in ast.walk(d.value)
+                     if isinstance(a, ast.Constant) and
+                     isinstance(a.value, str)]
+            for k in cands:
+                out.setdefault(k, []).append(s)
     return out
 
 
@@ -278,8 +296,10 @@ def run(ctx):
                 return super().call(node)
         tr = T(prog, mod, {"factor": f})
         r = sp.Symbol("r", integer=True, nonnegative=True)
-        tr.env["lcx"] = r
-        tr.env["lcy"] = r
+        # the residuals BN_RPX1/2 were written as (axis length % factor)
+        tr.env["header['BN_RPX1']"] = r
+        tr.env["header['BN_RPX2']"] = r
+        sym.number_locals(tr, exp.node, d[0].lineno, skip=("factor",))
         try:
             e = tr.expr(v)
         except sym.Untranslatable as ex:
